@@ -271,7 +271,7 @@ theorem invSched_step (cfg : Cfg) (s : State) (e : Event) (s' : State) (hI : Inv
     repeat' split at hs
     all_goals (first | (cases hs; done) | skip)
     rename_i _ P hP hg
-    obtain ⟨hcall, -, -, hb⟩ := hg
+    obtain ⟨hcall, -, -, hb, -⟩ := hg
     have hnone : s.batches b = none := by simpa using hb
     cases hs
     have hlook : ∀ y, y ≠ b → upd s.batches b (some (Batch.new pw P.tp P.nbatches)) y = s.batches y :=
@@ -325,7 +325,7 @@ theorem invSched_step (cfg : Cfg) (s : State) (e : Event) (s' : State) (hI : Inv
     repeat' split at hs
     all_goals (first | (cases hs; done) | skip)
     rename_i _ P hP _ B hB hg
-    obtain ⟨hc, hpend, hdet, hwhy⟩ := hg
+    obtain ⟨hc, hpend, hdet, hwhy, -⟩ := hg
     cases hs
     have hBpw : B.pw = pw := by
       obtain ⟨B0, hB0, h, -⟩ := hI.currOpen pw P hP b hc
@@ -389,7 +389,7 @@ theorem invSched_step (cfg : Cfg) (s : State) (e : Event) (s' : State) (hI : Inv
     repeat' split at hs
     all_goals (first | (cases hs; done) | skip)
     rename_i _ C hC hg
-    obtain ⟨-, -, -, hnf⟩ := hg
+    obtain ⟨-, -, -, hnf, -⟩ := hg
     cases hs
     constructor
     · exact hI.pwListed
